@@ -93,17 +93,11 @@ def network_simplex(
     root = n
 
     # Spanning tree: parent[i] = parent node, pred[i] = arc to parent, depth[i] = tree depth
-    # thread/rev_thread = preorder traversal links for fast subtree iteration
     parent = [root] * total_nodes
     parent[root] = -1
     pred = list(range(m, m + n)) + [-1]
     depth = [1] * total_nodes
     depth[root] = 0
-    thread = list(range(1, total_nodes)) + [0]
-    thread[n - 1] = root
-    thread[root] = 0
-    rev_thread = [root] + list(range(total_nodes - 1))
-    rev_thread[root] = n - 1
 
     # pi[i] = node potential (dual variable); reduced cost = cost - pi[src] + pi[tgt]
     pi = [0.0] * total_nodes
@@ -115,14 +109,7 @@ def network_simplex(
             pi[i] = pi[root] - cost[arc]
 
     # state[arc]: 1 = at lower bound (can increase), -1 = at upper bound (can decrease), 0 = basic (in tree)
-    state = [0] * total_arcs
-    for arc in range(total_arcs):
-        if flow[arc] == 0:
-            state[arc] = 1
-        elif flow[arc] == cap[arc]:
-            state[arc] = -1
-        else:
-            state[arc] = 0
+    state = [1] * m + [0] * n  # original arcs start at their lower bound, artificial arcs form the basis
 
     iterations = 0
 
@@ -181,7 +168,7 @@ def network_simplex(
         while node != join:
             arc = pred[node]
             d = _residual(arc, parent[node], source, flow, cap)
-            if d < delta:
+            if d <= delta:
                 delta = d
                 leaving = arc
                 leaving_first = False
@@ -216,76 +203,43 @@ def network_simplex(
                 flow[arc] -= delta
             node = parent[node]
 
+        if leaving == entering:
+            state[entering] = -state[entering]  # went from one bound to the other, basis unchanged
+            continue
+
+        # Basis exchange, then rebuild parent/pred/depth/pi from the tree arcs (O(n) per pivot)
+        state[leaving] = 1 if flow[leaving] == 0 else -1
+        state[entering] = 0
+        adjacent = [[] for _ in range(total_nodes)]
         for arc in range(total_arcs):
-            if flow[arc] == 0:
-                state[arc] = 1
-            elif flow[arc] == cap[arc]:
-                state[arc] = -1
-            else:
-                state[arc] = 0
-
-        if leaving != entering:
-            if leaving_first:
-                leaving_node = first
-                while pred[leaving_node] != leaving:
-                    leaving_node = parent[leaving_node]
-                new_parent = second
-            else:
-                leaving_node = second
-                while pred[leaving_node] != leaving:
-                    leaving_node = parent[leaving_node]
-                new_parent = first
-
-            prev_thread = rev_thread[leaving_node]
-            subtree_last = leaving_node
-            node = thread[leaving_node]
-            while depth[node] > depth[leaving_node]:
-                subtree_last = node
-                node = thread[node]
-
-            thread[prev_thread] = thread[subtree_last]
-            rev_thread[thread[subtree_last]] = prev_thread
-
-            attach_point = new_parent
-            node = thread[new_parent]
-            while node != new_parent and depth[node] > depth[new_parent]:
-                attach_point = node
-                node = thread[node]
-
-            thread[subtree_last] = thread[attach_point]
-            if thread[attach_point] < total_nodes:
-                rev_thread[thread[attach_point]] = subtree_last
-            thread[attach_point] = leaving_node
-            rev_thread[leaving_node] = attach_point
-
-            parent[leaving_node] = new_parent
-            pred[leaving_node] = entering
-
-            diff = depth[new_parent] + 1 - depth[leaving_node]
-            node = leaving_node
-            while True:
-                depth[node] += diff
-                node = thread[node]
-                if depth[node] <= depth[leaving_node] - diff or node == leaving_node:
-                    break
-
-            node = leaving_node
-            while True:
-                arc = pred[node]
-                if source[arc] == parent[node]:
-                    pi[node] = pi[parent[node]] - cost[arc]
-                else:
-                    pi[node] = pi[parent[node]] + cost[arc]
-                node = thread[node]
-                if depth[node] <= depth[new_parent] or node == leaving_node:
-                    break
+            if state[arc] == 0:
+                adjacent[source[arc]].append(arc)
+                adjacent[target[arc]].append(arc)
+        stack = [root]
+        seen = [False] * total_nodes
+        seen[root] = True
+        while stack:
+            p = stack.pop()
+            for arc in adjacent[p]:
+                child = target[arc] if source[arc] == p else source[arc]
+                if seen[child]:
+                    continue
+                seen[child] = True
+                parent[child] = p
+                pred[child] = arc
+                depth[child] = depth[p] + 1
+                pi[child] = pi[p] - cost[arc] if source[arc] == p else pi[p] + cost[arc]
+                stack.append(child)
 
     for arc in range(m, total_arcs):
         if flow[arc] > 0:
             return Result(None, float("inf"), iterations, total_arcs, Status.INFEASIBLE)
 
     total_cost = sum(flow[i] * cost[i] for i in range(m))
-    flow_dict = {(source[i], target[i]): flow[i] for i in range(m) if flow[i] > 0}
+    flow_dict = {}
+    for i in range(m):
+        if flow[i] > 0:  # parallel arcs share one key
+            flow_dict[(source[i], target[i])] = flow_dict.get((source[i], target[i]), 0) + flow[i]
 
     return Result(flow_dict, total_cost, iterations, total_arcs)
 
